@@ -143,15 +143,16 @@ func recurseValidationCode(att *expr.AttributeExpr, put expr.UserType, attCtx *A
 		}
 	case expr.IsMap(att.Type):
 		m := expr.AsMap(att.Type)
-		// Map keys and elements of primitive type are never pointers; user
-		// types keep the context so that hasValidations sees what the
-		// Validate function of the type actually checks.
+		// Map keys and elements of primitive type are never pointers. Anything
+		// else keeps the context: user types so that hasValidations sees what
+		// their Validate function actually checks, arrays and maps because
+		// they decide for their own elements.
 		keyCtx, elemCtx := attCtx, attCtx
-		if expr.IsPrimitive(m.KeyType.Type) || expr.IsArray(m.KeyType.Type) || expr.IsMap(m.KeyType.Type) {
+		if expr.IsPrimitive(m.KeyType.Type) {
 			keyCtx = attCtx.Dup()
 			keyCtx.Pointer = false
 		}
-		if expr.IsPrimitive(m.ElemType.Type) || expr.IsArray(m.ElemType.Type) || expr.IsMap(m.ElemType.Type) {
+		if expr.IsPrimitive(m.ElemType.Type) {
 			elemCtx = attCtx.Dup()
 			elemCtx.Pointer = false
 		}
